@@ -117,6 +117,46 @@ def check_maps(ctx: Ctx, case) -> None:
     ctx.note(case, nontrivial=len(segs) >= 2, classes=_regime_classes(tm) + [f"segs_{min(len(segs), 8)}"],
              sample={"res": case["res"], "tempo": case["tempo"][:5], "ticks": case["ticks"][:16]})
     ctx.evaluations += len(case["ticks"]) - 1
+    _doubtful_maps(ctx, case)
+
+
+def _doubtful_maps(ctx: Ctx, case) -> None:
+    """Tempo sections a parser may well refuse (a tick written twice with two tempos, a tick out of
+    order): refusing them is C15's subject, but IF such a section is accepted, the timeline it yields
+    must still never run backwards."""
+    tempo = case["tempo"]
+    if len(tempo) < 2 or (len(tempo) + sum(t for t, _ in tempo[:4])) % 3:
+        return
+    k = 1 + sum(n for _, n in tempo[:3]) % (len(tempo) - 1)
+    t_k, n_k = tempo[k]
+    variants = []
+    for other in (max(1, n_k // 4), min(10 ** 9, n_k * 4)):
+        variants.append(tempo[:k] + [[t_k, other], [t_k, n_k]] + tempo[k + 1:])
+        variants.append(tempo[:k + 1] + [[t_k, other]] + tempo[k + 1:])
+    if k + 1 < len(tempo):
+        variants.append(tempo[:k] + [tempo[k + 1], tempo[k]] + tempo[k + 2:])
+    lo = tempo[k - 1][0]
+    hi = tempo[k + 1][0] if k + 1 < len(tempo) else t_k + 50
+    ticks = sorted(set([t for t in case["ticks"]] + list(range(max(0, t_k - 3), t_k + 4)) + [lo, hi, hi + 1, hi + 7]))
+    for v in variants:
+        spec = {"res": case["res"], "sync": [[0, "TS", 4]] + [[t, "B", n] for t, n in v], "events": [], "tracks": {}}
+        try:
+            bpm = L.parse(S.render(spec)).sync_track.bpm_events
+        except Exception:  # noqa: BLE001  (rejection is the expected outcome; which error is C15 / C18)
+            ctx.classes["doubtful_map_rejected"] += 1
+            continue
+        ctx.classes["doubtful_map_accepted"] += 1
+        prev_t = prev_us = None
+        for t in ticks:
+            try:
+                a = td_us(bpm.timestamp_at_tick_no_optimize_return(t))
+            except Exception:  # noqa: BLE001
+                break
+            if prev_t is not None and a < prev_us:
+                ctx.fail("non-decreasing", f"tempo lines {v[max(0, k - 1):k + 3]} were accepted, and then "
+                                           f"time({prev_t}) = {prev_us} us > time({t}) = {a} us",
+                         dict(case, doubtful_tempo=v))
+            prev_t, prev_us = t, a
 
 
 def strat_charts(ctx: Ctx):
